@@ -269,3 +269,14 @@ package turn
 //@   assume-callee-pre
 //@   at-call (*allocation.Manager).DeleteAllocation assert [C04,C15:connection-close-deletes-own-allocation] recv == am && arg0.SrcAddr == remoteAddrOf(conn) && arg0.DstAddr == localAddrOf(conn) && int(arg0.Protocol) == 0
 //@   at-call invoke net.Conn.Close assert [C15:connection-closed-after-loop] recv == conn
+
+// ---- C09/C15 (server goroutines): each configured socket / listener is served by its own loop with its own
+// allocation manager, and that manager is closed when the loop ends.
+//@ func NewServer$1
+//@   assume-callee-pre
+//@   at-call (*Server).readLoop assert [C09:serves-the-socket] recv == server && arg0 == cfg.PacketConn && arg1 == am && arg2 == nil
+//@   at-call (*allocation.Manager).Close assert [C15:manager-closed-when-the-socket-ends] recv == am
+//@ func NewServer$2
+//@   assume-callee-pre
+//@   at-call (*Server).readListener assert [C09:serves-the-listener] recv == server && arg0 == cfg.Listener && arg1 == am
+//@   at-call (*allocation.Manager).Close assert [C15:manager-closed-when-the-listener-ends] recv == am
